@@ -40,17 +40,48 @@ def lex_rule(ctx, g):
     fn = tid[0].fn
     tp = param_names(fn)[0]
     Q = CLS + '.t_ID'
-    var = None
-    for st in body_without_doc(fn):
-        m = pm.match('_V = %s.value.upper()' % tp, st)
-        if m:
-            var = m['_V'].id
-    ok = False
-    if var:
-        for n in ast.walk(fn):
-            if isinstance(n, ast.If) and pm.match('%s in self.keywords' % var, n.test) is not None:
-                if any(pm.match('%s.type = %s' % (tp, var), st) is not None for st in n.body):
-                    ok = True
+    # abstract execution (helpers interpreted in place): a keyword in any letter case gets its upper-cased spelling as token type,
+    # anything else keeps the type ID
+    from .. import absint
+
+    def spelled(x, s):
+        '''concrete value of an expression over the lexeme'''
+        if pm.match('%s.value' % tp, x) is not None:
+            return s['lexeme']
+        if isinstance(x, ast.Call) and isinstance(x.func, ast.Attribute) and x.func.attr in ('upper', 'lower', 'casefold') and not x.args:
+            inner = spelled(x.func.value, s)
+            return getattr(inner, x.func.attr)() if inner is not None else None
+        return None
+
+    def in_kw(e, s, tr):
+        v = spelled(e['_X'], s)
+        if v is None:
+            return None
+        L = e['_L']
+        if isinstance(L, (ast.Tuple, ast.List, ast.Set)) and all(isinstance(k, ast.Constant) for k in L.elts):
+            return v in [k.value for k in L.elts]
+        if isinstance(L, ast.Dict) and all(isinstance(k, ast.Constant) for k in L.keys):
+            return v in [k.value for k in L.keys]
+        if pm.match('self.keywords', L) is not None:
+            return v in set(g.keywords)
+        return None
+
+    def set_type(e, s, tr):
+        v = e['_V']
+        if pm.match('%s.type' % tp, v) is not None:
+            return True
+        sv = spelled(v, s)
+        tr.append(('type', sv if sv is not None else '?' + src(v)))
+        return True
+    ti = absint.Interp(fn, [('_X in _L', in_kw), ('_X not in _L', lambda e, s, tr: (None if in_kw(e, s, tr) is None else not in_kw(e, s, tr)))],
+                       [('%s.type = _V' % tp, set_type), ('%s.endlexpos = _V' % tp, lambda e, s, tr: True)])
+    kw0 = sorted(g.keywords)[0]
+    ok = True
+    for lexeme in (kw0.upper(), kw0.lower(), kw0.capitalize(), 'not_a_keyword_x'):
+        out, tr = ti.run({'lexeme': lexeme})
+        types = [t[1] for t in tr if t[0] == 'type']
+        want = [lexeme.upper()] if lexeme.upper() in set(g.keywords) else []
+        ok = ok and types == want
     r.check(ok, 't_ID looks the upper-cased lexeme up in the keyword table and uses it as token type', fn, construct=Q, key='upper-lookup',
             msg='t_ID does not decide keyword-ness on `%s.value.upper()`' % tp)
     r.check(all(k == k.upper() for k in g.keywords), 'the keyword table is upper case', g.cls, construct=CLS + '.keywords', key='table-case',
@@ -81,25 +112,67 @@ def self_rule(ctx):
     repo = ctx.repo
     r = ctx.rule('C08-SELF', 'the implicit self variable is recognised and declared independent of letter case', floor=3,
                  oracle='grammar: instance_name : variable_name | SELF; sibling agreement of the find_symbol overrides')
+    from .. import absint
+    import itertools
     n = 0
     for c in repo.classes('bridgepoint.prebuild'):
         fn = repo.methods(c).get('find_symbol')
         if fn is None or c.name in ('SymbolTable', 'ActionPrebuilder'):
             continue
+        if "'self'" not in src(fn).lower():
+            continue
+        n += 1
+        q = 'bridgepoint.prebuild:%s.find_symbol' % c.name
         nm = param_names(fn)[1]
-        for node in ast.walk(fn):
-            if isinstance(node, ast.If) and 'self' in src(node.test):
-                n += 1
-                q = 'bridgepoint.prebuild:%s.find_symbol' % c.name
-                norm = ("%s.lower() == 'self'" % nm) in src(node.test) or ("%s.casefold() == 'self'" % nm) in src(node.test) or \
-                    ("%s.upper() == 'SELF'" % nm) in src(node.test)
-                r.check(norm, '%s compares the name case-normalised with self' % q, node, construct=q, key='self-compare',
-                        msg='%s recognises the implicit instance handle with `%s`, which depends on the letter case of SELF' % (q, src(node.test)))
-                calls = [x for x in ast.walk(node) if isinstance(x, ast.Call) and call_attr(x) == 'v_int']
-                ok = calls and all(len(x.args) >= 2 and isinstance(x.args[1], ast.Constant) and x.args[1].value == 'self' for x in calls)
-                r.check(bool(ok), '%s declares the handle under the spelling `self`' % q, node, construct=q, key='self-declare',
-                        msg='%s declares the implicit handle under the spelling found in the source (`%s`): SELF / Self / self then denote different '
-                            'variables' % (q, src(calls[0].args[1]) if calls and len(calls[0].args) > 1 else '?'))
+
+        def base(e, s, tr):
+            s.setdefault('env', {})[e['_V'].id] = 'base'
+            return True
+
+        def declare(e, s, tr):
+            sp = e['_S']
+            tr.append(('declare', sp.value if isinstance(sp, ast.Constant) else '?' + src(sp)))
+            s.setdefault('env', {})[e['_I'].id] = 'declared'
+            return True
+
+        def truthy(e, s, tr):
+            x = e['_X']
+            if isinstance(x, ast.Name) and s.get('env', {}).get(x.id) == 'base':
+                return s['found']
+            return None
+
+        def cmp_(e, s, tr):
+            a_, b_ = e['_A'], e['_B']
+            lit, other = (a_, b_) if isinstance(a_, ast.Constant) else (b_, a_)
+            if not (isinstance(lit, ast.Constant) and isinstance(lit.value, str)):
+                return None
+            if isinstance(other, ast.Name) and other.id == nm:
+                tr.append(('raw-compare', src(e['_A']) + ' == ' + src(e['_B'])))
+                return s['spelling'] == lit.value
+            if isinstance(other, ast.Call) and isinstance(other.func, ast.Attribute) and isinstance(other.func.value, ast.Name) and \
+                    other.func.value.id == nm and other.func.attr in ('lower', 'upper', 'casefold') and not other.args:
+                return getattr(s['spelling'], other.func.attr)() == lit.value
+            return None
+        it = absint.Interp(fn, [('_A == _B', cmp_), ('_A != _B', lambda e, s, tr: (None if cmp_(e, s, tr) is None else not cmp_(e, s, tr))),
+                                ('_X is None', lambda e, s, tr: (None if truthy(e, s, tr) is None else not truthy(e, s, tr))),
+                                ('_X is not None', truthy), ('_X', truthy)],
+                           [('_V = ActionPrebuilder.find_symbol(self, node, %s)' % nm, base), ('_I = self.v_int(node, _S, self._o_obj)', declare),
+                            ('_V = one(_I).V_VAR[814]()', lambda e, s, tr: True)])
+        for found, spelling in itertools.product([True, False], ['self', 'SELF', 'Self', 'other']):
+            out, tr = it.run({'found': found, 'spelling': spelling})
+            decl = [t[1] for t in tr if t[0] == 'declare']
+            want = ['self'] if (not found and spelling.lower() == 'self') else []
+            if spelling.lower() == 'self' and not found:
+                r.check(bool(decl), '%s recognises the implicit handle spelled %s' % (q, spelling), fn, construct=q, key='self-compare',
+                        msg='%s does not recognise the implicit instance handle spelled `%s`: the comparison depends on the letter case of SELF'
+                            % (q, spelling))
+                if decl:
+                    r.check(decl == ['self'], '%s declares the handle spelled %s under the spelling `self`' % (q, spelling), fn, construct=q,
+                            key='self-declare', msg='%s declares the implicit handle under the spelling found in the source (`%s`): SELF / Self / self '
+                                                    'then denote different variables' % (q, decl[0]))
+            else:
+                r.check(decl == want, '%s declares nothing for (found=%s, name %s)' % (q, found, spelling), fn, construct=q, key='self-spurious',
+                        msg='%s declares an implicit handle (%s) although %s' % (q, decl, 'the variable exists' if found else 'the name is not self'))
     if n < 3:
         raise AnalysisError('only %d find_symbol overrides with a self branch found' % n)
 
